@@ -35,3 +35,27 @@ CLAIMED["C18"] = (
     "Theorems in coq/Props/C18.v: counts are exact under any schedule of the increments, invalid ids / unequal lengths are rejected and nothing else, pooled counts = counts of the concatenation, relabelling and frame reordering permute / preserve the table, channel-capacity divisor grid entry (i,j) = min(n_x[i], n_y[j]), weighted tables under uniform weights = counts/T (closed under the global context); MI >= 0, symmetric, = entropy on the diagonal, <= each marginal entropy, relabelling-invariant, KL >= 0 and zero iff equal (over R).",
     "theorems over R depend on the standard library's ClassicalDedekindReals.sig_forall_dec, sig_not_dec, FunctionalExtensionality.functional_extensionality_dep, Classical_Prop.classic; MI laws are about exact real arithmetic on rectangular count tables, the implementation's doubles are compared at 1e-9 through a double evaluation of the formula (trusted glue); shape lemma for the kernel result and real-valued weighted=plain equality open; dtype/layout/OpenMP covered by correspondence only.",
     "DESIGN.md 7 C18")
+
+_CL_NOTE = ("the model receives the implementation's own distance matrix (exact rationals) and recorded k-medoids proposals; the theorems' "
+            "hypotheses on that matrix (zero diagonal, positive off-diagonal) are evaluated in Coq per case (valid_matrix, proved sound); "
+            "NumPy argmax/masking/unique and the metric kernels are modelled not verified (kernels: C13); md.rmsd/Trajectory inputs not exercised.")
+CLAIMED["C01"] = (
+    "Coq proof by invariant over k-centers / nearest-centre / PAM state machines (unbounded n, k, sweeps) + differential correspondence evaluated in Coq on the implementation's distance matrix and recorded random proposals",
+    "Theorems in coq/Props/C01.v (closed under the global context): the consistency invariant (centres distinct frames, labels in range, distance = metric distance to the assigned centre, no centre strictly closer, centre frames carry their own label at distance 0) holds after k-centers (cold/warm, count and/or radius, with the triangle shortcut), after nearest-centre assignment, after every accepted or rejected PAM proposal (any proposal frame), hence after any k-medoids / k-hybrid run.",
+    _CL_NOTE + " 'inputs not modified' and estimator attribute plumbing are runtime checks.",
+    "DESIGN.md 7 C01")
+CLAIMED["C02"] = (
+    "Coq proof over the k-centers loop (guarded-steps relation, fuel bound, radius monotonicity, shortcut equivalence under the triangle inequality, Gonzalez pigeonhole argument) + differential correspondence evaluated in Coq",
+    "Theorems in coq/Props/C02.v (closed under the global context): first centre is frame 0 / supplied centres kept, every iteration appends a frame of currently largest distance (first maximum), the radius never grows, the loop stops exactly when the guard fails and n+1 iterations suffice, the shortcut run equals the plain run for symmetric metrics with the triangle inequality, final radius <= 2 x radius of any set of at most k centres for cold start or one initial centre; refuted for >= 2 initial centres (known finding F1).",
+    _CL_NOTE + " The while-guard is modelled by hand (kc_guard) and tied by correspondence with cutoffs placed at, just below and just above attained radii.",
+    "DESIGN.md 7 C02")
+CLAIMED["C09"] = (
+    "Coq proof (PAM accept rule, fold induction over proposals and sweeps) + differential correspondence evaluated in Coq with recorded proposals; per-sweep cost followed on the real code",
+    "Theorems in coq/Props/C09.v (closed under the global context): a proposal is accepted iff it strictly lowers the cost and otherwise leaves the whole state untouched; any number of sweeps with any proposals from any consistent state never raises the cost, keeps k and keeps every centre a frame of the data; k-hybrid cost <= k-centers cost; a proposal that already is a medoid cannot be accepted.",
+    _CL_NOTE + " Reproducibility with a fixed seed reduces to 'the code draws the same proposals', which is observed (two runs) not proved; integer-valued metrics only so the float cost is exact.",
+    "DESIGN.md 7 C09")
+CLAIMED["C07"] = (
+    "Coq proof over Q about any solution of the code-shaped linear systems (certificate-checked exact solver), discrete maximum principle, Kemeny-Snell identity, uniqueness of first-step solutions; differential correspondence evaluated in Coq on five containers",
+    "Theorems in coq/Props/C07.v (closed under the global context): committors are 0 on sources, 1 on sinks, lie in [0,1] and satisfy q_i = sum_j T_ij q_j elsewhere; mean first-passage times are 0 on sinks and t_i = lag + sum_j T_ij t_j elsewhere, linear in the lag; every column of the all-pairs table satisfies the single-sink first-step equations and equals the single-sink computation (uniqueness).",
+    "spsolve / np.linalg.solve / inv / eq_probs are modelled by an exact Gauss-Jordan whose output is re-checked per case and compared with the doubles at 1e-9; existence of a solution for ergodic input, dense/sparse agreement and 'inputs not modified' rest on the correspondence runs.",
+    "DESIGN.md 7 C07")
